@@ -30,6 +30,22 @@ def const_char(s):
     return s[2] if s[:2] == ("const", "char") else None
 
 
+def _mode_const(x):
+    """('bool', v) / ('variant', name) for a constant mode argument."""
+    x = strip_sym(x)
+    while isinstance(x, tuple) and x and x[0] in ("ref", "deref"):
+        x = strip_sym(x[1])
+    if not isinstance(x, tuple) or not x:
+        return None
+    if x[:2] == ("const", "bool"):
+        return ("bool", bool(x[2]))
+    if x[0] == "agg" and x[2] and not x[3]:
+        return ("variant", x[2])
+    if x[0] == "const" and len(x) > 3 and isinstance(x[3], str):
+        return ("variant", x[3].split("::")[-1])
+    return None
+
+
 def pred_signature(f):
     """(set of ascii-class predicates called, set of characters compared with ==) of a char predicate."""
     classes = {callee_method_name(c) for c in f.body.calls() if callee_method_name(c).startswith("is_ascii")}
@@ -91,14 +107,68 @@ def run(ctx):
             ok_lit = all(const_str(arg_syms(c)[1]) in ESCAPES for c in pstrs) and not other
             bad_lit = [const_str(arg_syms(c)[1]) for c in pstrs if const_str(arg_syms(c)[1]) not in ESCAPES]
             chk.ob("C08.a", f"{san.path} [literal pushes]", ok_lit and pstrs, f"{len(pstrs)} push_str sites, each a complete escape from {sorted(ESCAPES)}" if ok_lit else f"a literal other than a complete escape is emitted: {bad_lit or [callee_method_name(c) for c in other]}", san.loc())
-            # the is_desc switches
-            desc_true = set()
-            for bb, d, t_t, f_t in bool_switches(b):
-                if is_param(d, 1):
-                    desc_true.add(t_t)
-                d2 = strip_sym(d)
-                if d2[0] == "un" and d2[1] == "Not" and is_param(d2[2], 1):
-                    desc_true.add(f_t)
+            # the mode parameter: the two public wrappers call the escaper with two different constants (a bool, or a
+            # variant of a private enum); P = "the mode is the one sanitize_label_value passes"
+            modes = {}
+            for name in ("sanitize_label_value", "sanitize_description"):
+                f = p.fn(f"{FMT}::{name}")
+                r = strip_sym(Sym(f).local(0)) if f else None
+                okw = bool(f) and sym_is_call(r, "sanitize_label_value_or_description") and is_param(r[2][0], 0) and len(r[2]) == 2 and _mode_const(r[2][1]) is not None
+                if okw:
+                    modes[name] = _mode_const(r[2][1])
+                if f:
+                    chk.ob("C08.a", f.path, okw, f"{name}(v) = escaper(v, {modes.get(name)})" if okw else f"{name} does not hand its argument to the escaper with a constant mode", f.loc())
+            lv, ds = modes.get("sanitize_label_value"), modes.get("sanitize_description")
+            chk.ob("C08.a", f"{san.path} [modes]", lv is not None and ds is not None and lv != ds, f"label values are escaped in mode {lv}, descriptions in mode {ds}" if lv is not None and ds is not None and lv != ds else f"label values and descriptions are not escaped in two distinct constant modes ({lv}, {ds})", san.loc(), nontrivial=False)
+
+            def is_mode(x):
+                x = strip_sym(x)
+                while isinstance(x, tuple) and x and x[0] in ("ref", "deref"):
+                    x = strip_sym(x[1])
+                return is_param(x, 1)
+
+            def csw(subj, variant):
+                if not is_mode(subj) or lv is None:
+                    return None
+                if lv[0] == "bool":
+                    if variant in (0, 1):
+                        return "P" if bool(variant) == lv[1] else "N"
+                    if isinstance(variant, tuple) and variant[0] == "not" and len(variant[1]) == 1 and variant[1][0] in (0, 1):
+                        return "P" if (not bool(variant[1][0])) == lv[1] else "N"
+                    return None
+                if isinstance(variant, str):
+                    return "P" if variant == lv[1] else "N"
+                if isinstance(variant, tuple) and variant[0] == "not":
+                    return "N" if lv[1] in variant[1] else None
+                return None
+
+            def cbool(x):
+                x = strip_sym(x)
+                if not isinstance(x, tuple) or not x:
+                    return None
+                if x[0] == "un" and x[1] == "Not":
+                    w = cbool(x[2])
+                    return (w[1], w[0]) if w else None
+                if is_mode(x) and lv is not None and lv[0] == "bool":
+                    return ("P", "N") if lv[1] else ("N", "P")
+                if x[0] == "call" and isinstance(x[1], str) and len(x[2]) == 2 and (x[1].endswith("::eq") or x[1].endswith("::ne")):
+                    a_, b_ = x[2]
+                    other = b_ if is_mode(a_) else a_ if is_mode(b_) else None
+                    k_ = _mode_const(other) if other is not None else None
+                    if k_ is not None and lv is not None:
+                        w = ("P", "N") if k_ == lv else ("N", "P")
+                        return w if x[1].endswith("::eq") else (w[1], w[0])
+                if x[0] == "bin" and x[1] in ("Eq", "Ne"):
+                    a_, b_ = x[2], x[3]
+                    other = b_ if is_mode(a_) else a_ if is_mode(b_) else None
+                    k_ = _mode_const(other) if other is not None else None
+                    if k_ is not None and lv is not None:
+                        w = ("P", "N") if k_ == lv else ("N", "P")
+                        return w if x[1] == "Eq" else (w[1], w[0])
+                return None
+
+            from facts import PredFlow
+
             okp = bool(pushes)
             why = ""
             for c in pushes:
@@ -111,16 +181,12 @@ def run(ctx):
                     if tgt is None:
                         okp, why = False, f"the character switch has no arm for {lit!r}: it would be copied verbatim"
                         continue
-                    cut = {head} | (desc_true if must == "desc" else set())
-                    if c.bb in b.reachable(tgt, cut=cut):
-                        okp, why = False, f"the raw character can be pushed on the {lit!r} edge" + ("" if must == "never" else " even when not rendering a description")
-            chk.ob("C08.a", f"{san.path} [raw character edges]", okp, "push(c) is unreachable from the newline and backslash edges, and from the quote edge unless is_desc" if okp else why, san.loc())
-    for name, flag in (("sanitize_label_value", False), ("sanitize_description", True)):
-        f = p.fn(f"{FMT}::{name}")
-        if f:
-            r = strip_sym(Sym(f).local(0))
-            ok = sym_is_call(r, "sanitize_label_value_or_description") and is_param(r[2][0], 0) and strip_sym(r[2][1])[:3] == ("const", "bool", flag)
-            chk.ob("C08.a", f.path, ok, f"{name}(v) = sanitize_label_value_or_description(v, {str(flag).lower()})" if ok else f"{name} does not escape with is_desc = {flag}", f.loc())
+                    if c.bb in b.reachable(tgt, cut={head}):
+                        # the raw push is reachable from this character's edge: allowed only for the quote, and only on
+                        # paths on which the mode is known not to be the label-value mode
+                        if must == "never" or PredFlow(san, csw, cbool, start=tgt, cut={head}).at(c.bb) != "N":
+                            okp, why = False, f"the raw character can be pushed on the {lit!r} edge" + ("" if must == "never" else " even when escaping a label value")
+            chk.ob("C08.a", f"{san.path} [raw character edges]", okp, "push(c) is unreachable from the newline and backslash edges, and from the quote edge unless the mode is the description mode" if okp else why, san.loc())
 
     # ---------------- C08.b
     want_preds = {
@@ -176,6 +242,9 @@ def run(ctx):
                             # i > 0 / 0 < i
                             nonfirst = lab is True
                             idx_ok = (not nonfirst) == want_first
+                        elif gd[0] == "field" and gd[2] == "0" and lab in (0, "otherwise") and not isinstance(lab, bool):
+                            # `match i { 0 => start(c), _ => rest(c) }` on the enumerate index
+                            idx_ok = (lab == 0) == want_first
                     if not idx_ok:
                         ok, why = False, f"{pn_} is not applied to {'the first' if want_first else 'non-first'} position only"
                 if ok:
@@ -322,6 +391,14 @@ def run(ctx):
                 v = const_str(a) or const_char(a)
                 seq.append(v if v is not None else ("name" if is_param(a, 1) else ("desc" if sym_is_call(sym_through(a, "Deref::deref", "String::as_str"), "sanitize_description") else ("type" if is_param(a, 2) else "?"))))
             want = ["# HELP ", "name", " ", "desc", "\n"] if tail_req else ["# TYPE ", "name", " ", "type", "\n"]
+            # adjacent literals are one literal however they are pushed ("# " "HELP" " " == "# HELP ")
+            merged = []
+            for v in seq:
+                if merged and v not in ("name", "desc", "type", "?") and merged[-1] not in ("name", "desc", "type", "?"):
+                    merged[-1] += v
+                else:
+                    merged.append(v)
+            seq = merged
             chk.ob("C08.g", f.path, seq == want, f"writes {want}" if seq == want else f"writes {seq}, expected {want} (HELP text must go through sanitize_description; the line must end with a newline)", f.loc())
 
     # label pairs are escaped where they are emitted
@@ -406,6 +483,64 @@ def run(ctx):
         chk.ob("C08.f", f"{DB} [type agrees with variant]", ok, ("histogram <=> global buckets set or an override matches the name, in both functions; otherwise summary" if not weaker else "both functions decide from the same facts (override matchers on the name, override table, global buckets); combinator spelling: the disjunction itself is not re-derived") if ok else f"get_distribution builds a histogram under {sorted(cd)} but get_distribution_type says histogram under {sorted(ct)} (other strings: {sorted(others)})", gt.loc())
     else:
         chk.unrecognised("C08.f", "<anchor> DistributionBuilder::{get_distribution,get_distribution_type}", "missing")
+
+    # ---------------- C08.h unit text: the unit suffix is appended to a sanitised name without being sanitised itself,
+    # so every string it can be must already belong to the name grammar
+    import re as _re
+
+    chk.rule("C08.h", "TBL unit text: every string unit_suffix() can return (its own literals and the literals of the metrics-crate accessor it calls) matches [a-zA-Z0-9_:]+ — it is appended to family and sample names after sanitisation", floor=2)
+    us = p.fn(f"{FMT}::unit_suffix")
+    mcrate = ctx.crate("metrics")
+    if need(chk, "C08.h", "formatting::unit_suffix", us):
+        NAMEPART = _re.compile(r"^[a-zA-Z0-9_:]+$")
+
+        def str_outcomes(f, crate, depth=0):
+            """(literals, unknown sources) a str-valued (or Option<str>-valued) function can return: the value positions of
+            its result — alternatives of a phi, payloads of Some(..) — not the conditions it was chosen under."""
+            lits, unknown = set(), []
+
+            def val(x, d):
+                x = strip_sym(x)
+                if not isinstance(x, tuple) or not x:
+                    return
+                if x[0] == "phi":
+                    for y in x[1]:
+                        val(y, d)
+                elif x[0] == "agg":
+                    for y in x[3]:
+                        val(y, d)
+                elif x[:2] == ("const", "str"):
+                    lits.add(x[2])
+                elif x[0] == "const":
+                    pass
+                elif x[0] == "call" and "FromResidual" in x[1] and "option::Option" in x[1]:
+                    pass  # `opt?` leaving early: None, no text
+                elif x[0] == "call":
+                    name = x[1]
+                    tgt = None
+                    for cr in (crate, mcrate, p):
+                        if cr is not None and tgt is None:
+                            tgt = next((g for g in cr.fns if g.path == strip_generics(name) or g.path == name), None)
+                    if tgt is not None and d < 3:
+                        l2, u2 = str_outcomes(tgt, crate, d + 1)
+                        lits.update(l2)
+                        unknown.extend(u2)
+                    else:
+                        unknown.append(name)
+                else:
+                    unknown.append(sym_str(x)[:60])
+
+            val(Sym(f).local(0), depth)
+            return lits, unknown
+
+        lits, unknown = str_outcomes(us, p)
+        bad = sorted(x for x in lits if not NAMEPART.match(x))
+        okh = bool(lits) and not bad and not unknown
+        chk.ob("C08.h", us.path, okh, f"{len(lits)} possible unit texts, all within the name grammar" if okh else (f"unit_suffix can return {bad}: appended to a name these break the metric-name grammar" if bad else f"unit text comes from {unknown[:3]}, whose output is not known to be name-safe"), us.loc())
+        # nothing else turns a Unit into name text: Unit's str accessors are called from unit_suffix only
+        acc = sorted({(c.fn.parent or c.fn).path if c.fn.dk == "Closure" else c.fn.path for f in p.fns if "::tests::" not in f.path for c in f.body.calls() if (c.resolved or "").startswith("metrics::common::Unit::") and c.resolved.split("::")[-1] in ("as_str", "as_canonical_label")})
+        oka = set(acc) <= {us.path}
+        chk.ob("C08.h", "Unit -> text [who-may-call]", oka, "only unit_suffix turns a Unit into text" if oka else f"{[a for a in acc if a != us.path]} turn a Unit into text besides unit_suffix", us.loc())
 
 
 def _points_to(body, op, local, depth=0):
